@@ -686,6 +686,37 @@ def check_graph(run, rng, spec: Dict[str, Any], engine: str, case: Dict[str, Any
     if d is not None:
         run.violation(f'exporting changed the in-memory graph at {d["path"]} ({d["field"]})', witness=d, key='export-mutates-graph',
                       engine=engine, case=case)
+    elif rng.random() < 0.3:
+        # history: the graph that has just been exported is edited in place (ASCII-only edits, so the features that decide
+        # which encodings can carry it stay as they are) and exported again - nothing may be remembered from the first export
+        from srctools import dmx as _dmx
+        walked = [root]
+        seen_ids = {id(root)}
+        for el in walked:
+            for attr in el.values():
+                if attr.type is _dmx.ValueType.ELEMENT:
+                    for sub in attr.iter_elem():
+                        if not sub.is_null and not sub.is_stub and id(sub) not in seen_ids:
+                            seen_ids.add(id(sub))
+                            walked.append(sub)
+        for el in rng.sample(walked, min(len(walked), 3)):
+            el['edited_after_export'] = rng.randrange(100)
+            if 'name' in el and not any(ord(c) > 127 or c == '\x00' for c in el.name):
+                el.name = el.name + '_e'
+            # (a TIME attribute is never deleted: whether the graph holds one decides which binary versions may refuse it)
+            keys = [k for k in el.keys() if k not in ('name', 'edited_after_export') and el[k].type is not _dmx.ValueType.TIME]
+            if keys and rng.random() < 0.5:
+                del el[rng.choice(keys)]
+        try:
+            exp2 = snapshot(root)
+        except Exception:
+            raise
+        run.count('graphs_re_exported_after_edits')
+        case2 = dict(case, after_edit=True)
+        # deleting a reference can make the only TIME attribute unreachable: what the graph holds NOW decides
+        feat2 = dict(feat, time=any(a[1] == 'TIME' for n in exp2 for a in n['attrs']))
+        for cfg in rng.sample(graph_configs(rng, feat2, False), 2):
+            roundtrip(run, root, exp2, feat2, cfg, case2, engine + '-after-edit')
     # monitor counters: what the workload actually contained
     for name in ('sharing', 'cycle', 'self_loop', 'shared_stub'):
         if feat[name]:
@@ -954,7 +985,7 @@ def main(run, shard=(0, 1)) -> None:
         name_attr_case(run)
     probe.report(run)
     probe.check_reached(run)
-    run.require('binary_parses', 'kv2_parses', 'real_file_roundtrips', 'repeated_exports', 'independent_decodes_agree', 'to_kv1_calls', 'to_kv1_after_wire',
+    run.require('binary_parses', 'kv2_parses', 'real_file_roundtrips', 'repeated_exports', 'graphs_re_exported_after_edits', 'independent_decodes_agree', 'to_kv1_calls', 'to_kv1_after_wire',
                 'graphs_with_sharing', 'graphs_with_cycle', 'graphs_with_self_loop', 'graphs_with_nameless_elements', 'stub_occurrences', 'null_in_array_occurrences',
                 'empty_array_occurrences', 'scalar_matrix_occurrences', 'name_needs_escape_occurrences',
                 'unicode_string_array_occurrences', 'unicode_type_occurrences', 'ascii_mode_refused_non_ascii',
